@@ -199,6 +199,17 @@ Proof.
   intros u r raw Hr Hu. split; [apply cli_target_designates_same; assumption|apply normalize_target_normalized].
 Qed.
 
+(* Paths the director hands back to a step over RPC (api.get_info: StepInfo.inp / out / vol).  The list of path
+   fields of RPC results that api.py uses, with the function api.py maps them back with, is generated from api.py;
+   every one of them goes through translate_back, so the path the step receives designates, from the step's
+   working directory (root / HERE), the file the director recorded as root-relative q.  All roots, HERE, q. *)
+Theorem C20_rpc_paths_designate_same :
+  forallb (fun f => is_back_translate (snd f)) rpc_back_fields = true /\ rpc_back_fields <> [] /\
+  forall site m, In (site, m) rpc_back_fields ->
+    forall cwd root here q, wf_root root = true ->
+      resolve (caller_dir root here s_dot) (back_apply m cwd (mkenv root here) q) = resolve root q.
+Proof. split; [exact rpc_back_all_translate|]. split; [discriminate|exact rpc_paths_designate_same]. Qed.
+
 Theorem C20_target_call_sites_before_cd : targets_normalized_in_user_cwd = true /\ target_call_sites <> [].
 Proof. split; [exact target_flag_true|discriminate]. Qed.
 
